@@ -203,6 +203,29 @@ def run_shard(ctx):
                         text = '%s %s to %s' % (render_literal(xs, sep), a, b)
                         ops.append({'op': 'execute', 'lang': 'en', 'text': text})
                         meta[len(ops) - 1] = ('eval', text, 'after-update', ('money', b, rates.convert(Fraction(xs), a, b), abs(rates.convert(Fraction(xs), a, b))), rates.version)
+            elif rng.random() < 0.1:
+                # one and the same currency - rated or not - needs no rate: literal, identity conversion, + - / and scaling
+                c = rng.choice(all_codes)
+                xs, ys = rng.choice(AMOUNTS), rng.choice(AMOUNTS)
+                X, Y = Fraction(xs), Fraction(ys)
+                sp = lambda v: '%s %s' % (render_literal(v, sep, rng.random() < 0.25), rng.choice([c, c.upper()]))
+                form = rng.randrange(6)
+                if form == 0:
+                    text, exp = sp(xs), ('money', c, X, abs(X))
+                elif form == 1:
+                    text, exp = '%s %s%s' % (sp(xs), rng.choice(['to ', 'as ', 'in ', '']), c), ('money', c, X, abs(X))
+                elif form == 2:
+                    text, exp = '%s + %s' % (sp(xs), sp(ys)), ('money', c, X + Y, abs(X) + abs(Y))
+                elif form == 3:
+                    text, exp = '%s - %s' % (sp(xs), sp(ys)), ('money', c, X - Y, abs(X) + abs(Y))
+                elif form == 4:
+                    text, exp = '%s / %s' % (sp(xs), sp(ys)), ('number', (X / Y) if Y else Fraction(0), abs(X / Y) if Y else 1)
+                else:
+                    n = rng.choice(['2', '3', '10', '7'])
+                    text, exp = '%s * %s' % (sp(xs), n), ('money', c, X * Fraction(n), abs(X * Fraction(n)))
+                ops.append({'op': 'execute', 'lang': 'en', 'text': text})
+                meta[len(ops) - 1] = ('eval', text, 'same-currency' + ('' if c in BASE_RATED else ':no-rate'), exp, rates.version)
+                res.cover('currency in same-currency operations', c, len(all_codes))
             else:
                 del COV[:]
                 text, cls, exp = gen_case(rng, rates, sep, aliases, targets)
